@@ -70,7 +70,7 @@ pub fn check(c: &mut Case, files: &Files, nvariants: usize) {
     if files.len() >= 2 && files.iter().any(|(_, b)| b.len() % 32 != 0) {
         c.nontrivial(fp(files));
     }
-    let img = match c.lib("fe9_arc::serialize", || fe9_arc::serialize(&map)) {
+    let img = match c.lib_stable("fe9_arc::serialize", || fe9_arc::serialize(&map).map_err(|e| e.to_string())) {
         None => return,
         Some(Err(e)) => {
             c.fail("serialize_err", "serialize_err", format!("serialize returned Err({}) for {}", e, describe(files)));
